@@ -731,7 +731,13 @@ pub fn get_deposit(
     pool_deposit: &BigNum, // // protocol parameter
     key_deposit: &BigNum,  // protocol parameter
 ) -> Result<Coin, JsError> {
-    internal_get_deposit(&txbody.certs, &pool_deposit, &key_deposit)
+    let certs_deposit = internal_get_deposit(&txbody.certs, &pool_deposit, &key_deposit)?;
+    match &txbody.voting_proposals {
+        Some(proposals) => proposals
+            .into_iter()
+            .try_fold(certs_deposit, |acc, proposal| acc.checked_add(&proposal.deposit)),
+        None => Ok(certs_deposit),
+    }
 }
 
 #[derive(Debug, Clone, Eq, Ord, PartialEq, PartialOrd)]
